@@ -1039,55 +1039,66 @@ func main() {
 // emitRunEndTest extracts the end-of-digits test of memoizer.run: the condition of the `if`
 // whose body calls setData(..., true) inside the inner loop, as a function of the value x.
 func (p *pkgInfo) emitRunEndTest(o *out) {
-	fd := p.funcs["memoizer.run"]
-	if fd == nil {
-		o.problem("memoizer.run not found")
-		return
+	// the statement `x := m.iter()` (in `run` or in a helper of it) and the `if` that follows it:
+	// its condition is the end-of-digits test
+	fieldCanon, _ := p.memoFields()
+	iterName := "iter"
+	for n, c := range fieldCanon {
+		if c == "_iter" {
+			iterName = n
+		}
 	}
 	var cond ast.Expr
-	var varName string
-	ast.Inspect(fd.Body, func(n ast.Node) bool {
-		is, ok := n.(*ast.IfStmt)
-		if !ok || cond != nil {
-			return true
+	var varName, where string
+	for _, k := range p.order {
+		fd := p.funcs[k]
+		if fd.Body == nil || !strings.HasPrefix(k, "memoizer.") || cond != nil {
+			continue
 		}
-		callsSetDataTrue := false
-		ast.Inspect(is.Body, func(m ast.Node) bool {
-			c, ok := m.(*ast.CallExpr)
-			if !ok {
+		ast.Inspect(fd.Body, func(n ast.Node) bool {
+			blk, ok := n.(*ast.BlockStmt)
+			if !ok || cond != nil {
 				return true
 			}
-			if s, ok := c.Fun.(*ast.SelectorExpr); ok && s.Sel.Name == "setData" && len(c.Args) == 2 {
-				if id, ok := c.Args[1].(*ast.Ident); ok && id.Name == "true" {
-					callsSetDataTrue = true
+			for i, st := range blk.List {
+				as, ok := st.(*ast.AssignStmt)
+				if !ok || len(as.Rhs) != 1 || len(as.Lhs) != 1 {
+					continue
+				}
+				c, ok := as.Rhs[0].(*ast.CallExpr)
+				if !ok {
+					continue
+				}
+				s, ok := c.Fun.(*ast.SelectorExpr)
+				if !ok || s.Sel.Name != iterName {
+					continue
+				}
+				id, ok := as.Lhs[0].(*ast.Ident)
+				if !ok || i+1 >= len(blk.List) {
+					continue
+				}
+				if is, ok := blk.List[i+1].(*ast.IfStmt); ok && is.Init == nil {
+					mentions := false
+					ast.Inspect(is.Cond, func(m ast.Node) bool {
+						if x, ok := m.(*ast.Ident); ok && x.Name == id.Name {
+							mentions = true
+						}
+						return true
+					})
+					if mentions {
+						cond, varName, where = is.Cond, id.Name, k
+					}
 				}
 			}
 			return true
 		})
-		if callsSetDataTrue {
-			cond = is.Cond
-		}
-		return true
-	})
-	// the variable assigned from m.iter()
-	ast.Inspect(fd.Body, func(n ast.Node) bool {
-		as, ok := n.(*ast.AssignStmt)
-		if !ok || len(as.Rhs) != 1 || len(as.Lhs) != 1 {
-			return true
-		}
-		if c, ok := as.Rhs[0].(*ast.CallExpr); ok {
-			if s, ok := c.Fun.(*ast.SelectorExpr); ok && s.Sel.Name == "iter" {
-				varName = as.Lhs[0].(*ast.Ident).Name
-			}
-		}
-		return true
-	})
+	}
 	if cond == nil || varName == "" {
 		o.problem("memoizer.run: end-of-digits test not recognised")
 		o.line("def runEndTest (x : Int) : Bool := true")
 		return
 	}
-	e := &intEnv{p: p, o: o, ctx: "memoizer.run end test", fields: map[string]bool{}}
+	e := &intEnv{p: p, o: o, ctx: where + " end test", fields: map[string]bool{}}
 	o.line("def runEndTest (x : Int) : Bool := %s", e.expr(cond, scope{varName: "x"}))
 }
 
